@@ -11,6 +11,7 @@ import (
 	eval "github.com/onheap/eval"
 
 	"verifmc/drive"
+	"verifmc/ref"
 	"verifmc/rep"
 )
 
@@ -113,7 +114,7 @@ func c11(r *rep.Run) {
 	if r.Thorough() {
 		r.SetBudget(1800e9)
 	}
-	r.Rule = "(1) explicit-state BFS over registration histories: initial states = every injective pre-population of <= 3 of the names {a,b,c} with keys from {-32768,-1,0,1,2,3,255,256,32767}; transitions = the real GetOrRegisterKey(name) for name in {a,b,c,d}; states (key maps) are deduplicated canonically; invariants on every transition: returned key = stored key, no existing assignment changes, the map stays injective. Scaled families: maps pre-populated with keys 1..n (n around 64, 128, 256 and every n <= 70, with and without one hole) followed by three registrations. (2) for every reached layout in which a..d are all registered x {undefined-variable mode off,on}: compile the positional expression (+ (* a 1) (* b 10) (* c 100) (* d 1000)) and evaluate it through NewCtxFromVars (library picks slice or map fetcher), NewMapVarFetcher, NewSliceVarFetcher (when the layout permits) and the package-level Eval with ExtendConf + extra unrelated bindings; registration also through RegVarAndOp, alone and in one or two batches on top of every injective pre-keying of <= 2 of {a, z, e2} with keys from {-1, 0..10, 255, 256}. (3) every convertible Go type named in the statement as the bound value, through each fetcher constructor. Oracle: arithmetic identity / normalised value. non-trivial = layouts with a key outside 0..255 or with a hole below the largest key"
+	r.Rule = "(1) explicit-state BFS over registration histories: initial states = every injective pre-population of <= 3 of the names {a,b,c} with keys from {-32768,-1,0,1,2,3,255,256,32767}; transitions = the real GetOrRegisterKey(name) for name in {a,b,c,d}; states (key maps) are deduplicated canonically; invariants on every transition: returned key = stored key, no existing assignment changes, the map stays injective. Scaled families: maps pre-populated with keys 1..n (n around 64, 128, 256 and every n <= 70, with and without one hole) followed by three registrations. (2) for every reached layout in which a..d are all registered x {undefined-variable mode off,on}: compile the positional expression (+ (* a 1) (* b 10) (* c 100) (* d 1000)) and evaluate it through NewCtxFromVars (library picks slice or map fetcher), NewMapVarFetcher, NewSliceVarFetcher (when the layout permits) and the package-level Eval with ExtendConf + extra unrelated bindings; registration also through RegVarAndOp, alone and in one or two batches on top of every injective pre-keying of <= 2 of {a, z, e2} with keys from {-1, 0..10, 255, 256}. (3) variable names that resemble literals/keywords/operators (True, FALSE, T, nil, fi, mod, in, ...) and the one-node infix program (a lone variable) under 7 keys x registered / undefined-variable mode / both, bound to an int, both booleans and a string; (4) every convertible Go type named in the statement as the bound value, through each fetcher constructor. Oracle: arithmetic identity / normalised value. non-trivial = layouts with a key outside 0..255 or with a hole below the largest key"
 	r.Assume = []string{"keys are drawn from a boundary alphabet of the int16 range, not all 65536 values", "names a..d stand for arbitrary distinct identifiers"}
 
 	keys := []eval.VariableKey{-32768, -1, 0, 1, 2, 3, 255, 256, 32767}
@@ -304,6 +305,7 @@ func c11(r *rep.Run) {
 	}
 	c11RegVarAndOp(r, &evals)
 	c11Types(r, &evals)
+	c11SpecialNames(r, &evals)
 	r.Add(int64(len(seen)), transitions+evals, evals, evals+transitions, nontrivial)
 	r.Finish()
 }
@@ -680,4 +682,88 @@ func c11Types(r *rep.Run, n *int64) {
 	}
 	r.Cov["type_cases"] = len(cases)
 	r.Sample(14, map[string]interface{}{"type_case": "uint64(1<<62) bound to v under key 256 via NewCtxFromVars, probe (= v 4611686018427387904)"})
+}
+
+// c11SpecialNames: variable NAMES that resemble literals, keywords or operators, and
+// the one-node program (a lone variable, infix notation), under key layouts
+// of every kind and in undefined-variable mode, through every context
+// constructor: a variable evaluates to the value bound to its name.
+func c11SpecialNames(r *rep.Run, n *int64) {
+	names := []string{"True", "TRUE", "False", "FALSE", "tRuE", "T", "F", "nil", "fi", "DNE", "mod", "version", "in", "not", "x1", "_", "a.b", "名前"}
+	keys := []eval.VariableKey{-1, 0, 1, 7, 255, 256, 32767}
+	for _, name := range names {
+		for _, key := range keys {
+			for mode := 0; mode < 3; mode++ { // 0 registered, 1 undefined-variable mode (unregistered), 2 registered + undefined allowed
+				// a name that is also an operator is a variable only where the
+				// grammar leaves no doubt: registered, in a prefix operand position
+				opNamed := ref.IsBuiltin(name)
+				if opNamed && mode == 1 {
+					continue
+				}
+				cfg := eval.NewConfig()
+				if mode != 1 {
+					cfg.VariableKeyMap[name] = key
+					cfg.VariableKeyMap["other"] = key + 1 - 2*eval.VariableKey(boolInt(key == 32767))
+				}
+				if mode != 0 {
+					cfg.CompileOptions[eval.AllowUndefinedVariable] = true
+				}
+				for _, bind := range []interface{}{int64(20), false, true, "txt"} {
+					vals := map[string]interface{}{name: bind, "other": int64(1)}
+					type prog struct {
+						src   string
+						infix bool
+						want  interface{}
+						ok    bool
+					}
+					progs := []prog{{"(= " + name + " " + name + ")", false, true, true}, {name, true, bind, true}, {"(" + name + ")", true, bind, true}}
+					if i, isInt := bind.(int64); isInt {
+						progs = append(progs, prog{"(+ " + name + " 1 other)", false, i + 2, true}, prog{name + " + other", true, i + 1, true})
+					}
+					if b, isBool := bind.(bool); isBool {
+						progs = append(progs, prog{"(if " + name + " 1 2)", false, map[bool]int64{true: 1, false: 2}[b], true}, prog{"(not " + name + ")", false, !b, true}, prog{"!" + name, true, !b, true})
+					}
+					if str, isStr := bind.(string); isStr {
+						progs = append(progs, prog{"(= " + name + " \"" + str + "\")", false, true, true})
+					}
+					for _, pg := range progs {
+						c2 := eval.CopyConfig(cfg)
+						if pg.infix {
+							if opNamed || name == "a.b" || name == "名前" || name == "_" {
+								continue // identifier shapes the infix lexer is not asked about here
+							}
+							c2.CompileOptions[eval.InfixNotation] = true
+						}
+						e, err := eval.Compile(c2, pg.src)
+						d := map[string]interface{}{"source": pg.src, "variable": name, "key": key, "mode": []string{"registered", "undefined-variable mode", "registered, undefined allowed"}[mode], "bound_to": fmt.Sprintf("%T(%v)", bind, bind)}
+						if err != nil {
+							r.Violate("compile", "names"+name, sprintf("%q with the variable %s does not compile: %v", pg.src, name, err), d)
+							continue
+						}
+						ctxs := map[string]func() *eval.Ctx{
+							"NewCtxFromVars":   func() *eval.Ctx { return eval.NewCtxFromVars(c2, vals) },
+							"NewMapVarFetcher": func() *eval.Ctx { return &eval.Ctx{VariableFetcher: eval.NewMapVarFetcher(vals)} },
+						}
+						for cname, mk := range ctxs {
+							for entry := 0; entry < 2; entry++ {
+								var v eval.Value
+								var eerr error
+								p, site := drive.Fence(func() {
+									if entry == 0 {
+										v, eerr = e.Eval(mk())
+									} else {
+										v, eerr = e.TryEval(mk())
+									}
+								})
+								atomic.AddInt64(n, 1)
+								if p != nil || eerr != nil || v != eval.Value(pg.want) {
+									r.Violate("wrong-variable", "names"+name+pg.src, sprintf("%s of %q with %s = %v gives %v/%v (panic %v at %s), expected %v", []string{"Eval", "TryEval"}[entry], pg.src, name, bind, v, eerr, p, site, pg.want), func() map[string]interface{} { d["context"] = cname; return d }())
+								}
+							}
+						}
+					}
+				}
+			}
+		}
+	}
 }
